@@ -275,6 +275,7 @@ Proof.
   - intros E; inversion E; subst. assumption.
   - destruct (if v_backlog_chdir (c_var c) then chdir (w_fs w) d else Some cwd) as [cwd1|];
       [|intros E; inversion E; subst; assumption].
+    destruct (backlog_verify (c_var c) (w_fs w) d src dst); [intros E; inversion E; subst; assumption|].
     destruct (renamer c w cwd1 src dst false) as [w1 [e1|]] eqn:R;
       pose proof (Safe_renamer _ _ _ _ _ _ _ (proj1 SC) H R) as H1; pose proof (renamer_answers _ _ _ _ _ _ _ _ R) as A1.
     + assert (AW1 : answers_within c w1) by (intros a Ha; apply AW; rewrite <- A1; assumption).
